@@ -811,7 +811,10 @@ def prepare_c18(cases_path, runner, build):
                 MODE_DIFFS[cid] = 'run mode "%s" differs from a run on a fresh thread at log line %d: %r vs %r' % (mode, n, (b[n] if n < len(b) else None), (a[n] if n < len(a) else None))
     MODE_STATS['modes_compared'] = len(logs) - 1
     MODE_STATS['instances_per_mode'] = len(base)
-    out = subprocess.run([harness, 'migrate'], stdin=open(cases_path), capture_output=True, text=True, errors='replace', timeout=3000).stdout
+    # migration spawns a thread per call: a bounded sample (every case in the quick tier, the first 4000 otherwise)
+    sample = os.path.join(build, 'c18.migrate.cases')
+    open(sample, 'w').write(''.join(list(open(cases_path))[:4000]))
+    out = subprocess.run([harness, 'migrate'], stdin=open(sample), capture_output=True, text=True, errors='replace', timeout=3000).stdout
     cid = None; nm = 0
     for ln in out.splitlines():
         if ln.startswith('C '): cid = ln[2:]; nm += 1
